@@ -255,7 +255,7 @@ int main()
       out += seg;
     }
     writers.clear();
-    std::cout << out << "\n";
+    std::cout << out << "\n" << std::flush;
   }
   return 0;
 }
